@@ -8,6 +8,48 @@ All rule-soundness proofs (`Rules.lean`) go through these equations and never me
 -/
 namespace C16
 
+theorem handle_mono (ω : Oracle) (r1 : Out × St) (hk : HKind) (runH runH' : St → Out × St) (r2 : Out × St)
+    (hH : ∀ s r', runH s = r' → r'.1 ≠ .fuel → runH' s = r')
+    (h : handle ω r1 hk runH = r2) (hr : r2.1 ≠ .fuel) : handle ω r1 hk runH' = r2 := by
+  unfold handle at h ⊢
+  by_cases hra : r1.1 = .raise
+  · rw [if_pos hra] at h ⊢
+    cases hk with
+    | none => exact h
+    | all => exact hH _ _ h hr
+    | some =>
+      simp only at h ⊢
+      by_cases hw : ω r1.2.pos = true
+      · rw [if_pos hw] at h ⊢; exact hH _ _ h hr
+      · rw [if_neg hw] at h ⊢; exact h
+  · rw [if_neg hra] at h ⊢; exact h
+
+theorem finish_mono (r2 : Out × St) (runF runF' : St → Out × St) (r : Out × St)
+    (hF : ∀ s r', runF s = r' → r'.1 ≠ .fuel → runF' s = r')
+    (h : finish r2 runF = r) (hr : r.1 ≠ .fuel) : finish r2 runF' = r := by
+  unfold finish at h ⊢
+  by_cases hf : r2.1 = .fuel
+  · rw [if_pos hf] at h; subst h; exact absurd hf hr
+  · rw [if_neg hf] at h ⊢
+    by_cases hn : (runF r2.2).1 = .normal
+    · rw [if_pos hn] at h
+      have e := hF r2.2 _ rfl (by rw [hn]; simp)
+      rw [e, if_pos hn]; exact h
+    · rw [if_neg hn] at h
+      have e := hF r2.2 r h hr
+      rw [e]
+      have hn' : ¬ r.1 = .normal := by rw [← h]; exact hn
+      rw [if_neg hn']
+
+theorem finish_ne_fuel {r2 : Out × St} {runF : St → Out × St} (h : (finish r2 runF).1 ≠ .fuel) : r2.1 ≠ .fuel := by
+  intro hf; unfold finish at h; rw [if_pos hf] at h; exact h hf
+
+theorem handle_ne_fuel {ω : Oracle} {r1 : Out × St} {hk : HKind} {runH : St → Out × St}
+    (h : (handle ω r1 hk runH).1 ≠ .fuel) : r1.1 ≠ .fuel := by
+  intro hf; unfold handle at h
+  have : ¬ r1.1 = .raise := by rw [hf]; simp
+  rw [if_neg this] at h; exact h hf
+
 theorem exec_mono (ω : Oracle) : ∀ n,
     (∀ st s r, exec ω n st s = r → r.1 ≠ .fuel → exec ω (n + 1) st s = r) ∧
     (∀ l s r, execList ω n l s = r → r.1 ≠ .fuel → execList ω (n + 1) l s = r) := by
@@ -59,20 +101,27 @@ theorem exec_mono (ω : Oracle) : ∀ n,
         · rename_i hv; simp only [hv, if_true] at h; exact ih2 _ _ _ h hr
         · rename_i hv; simp only [hv] at h; exact ih2 _ _ _ (by simpa using h) hr
       | withS b => simp only [exec] at h ⊢; exact ih2 _ _ _ h hr
-      | whileS c b =>
+      | whileS c b e =>
         simp only [exec] at h ⊢
         split
         · rename_i hv; simp only [hv, if_true] at h; exact loopStep _ _ _ _ h hr
-        · rename_i hv; simp only [hv] at h; simpa using h
-      | forS it b =>
+        · rename_i hv; simp only [hv] at h; exact ih2 _ _ _ (by simpa using h) hr
+      | forS it b e =>
         cases it with
-        | empty => simpa [exec] using h
+        | empty => simp only [exec] at h ⊢; exact ih2 _ _ _ h hr
         | nonempty => simp only [exec] at h ⊢; exact loopStep _ _ _ _ h hr
         | unk =>
           simp only [exec] at h ⊢
           split
           · rename_i hv; simp only [hv, if_true] at h; exact loopStep _ _ _ _ h hr
-          · rename_i hv; simp only [hv] at h; simpa using h
+          · rename_i hv; simp only [hv] at h; exact ih2 _ _ _ (by simpa using h) hr
+      | tryS b hk hb f =>
+        simp only [exec, tryComb] at h ⊢
+        have h2ne := finish_ne_fuel (by rw [h]; exact hr)
+        have h1ne := handle_ne_fuel h2ne
+        rw [ih2 b s _ rfl h1ne]
+        rw [handle_mono ω _ hk _ (execList ω (n + 1) hb) _ (fun s r' => ih2 hb s r') rfl h2ne]
+        exact finish_mono _ _ _ _ (fun s r' => ih2 f s r') h hr
     · intro l s r h hr
       cases l with
       | nil => simpa [execList] using h
@@ -324,10 +373,10 @@ theorem loopMatch_iff (ω : Oracle) (L : Stmt) (b : List Stmt) (s' : St) (r : Ou
     | raise => simp at hk; subst hk; exact ⟨n1, by rw [h1], by simp⟩
     | fuel => simp at hr1
 
-theorem resS_while (ω : Oracle) (c : Cond) (b : List Stmt) (s : St) (r : Out × St) :
-    ResS ω (.whileS c b) s r ↔
-      if (evalCond ω c s).1 then ∃ rb, Res ω b (evalCond ω c s).2 rb ∧ loopK ω (.whileS c b) rb r
-      else r = (.normal, (evalCond ω c s).2) := by
+theorem resS_while (ω : Oracle) (c : Cond) (b e : List Stmt) (s : St) (r : Out × St) :
+    ResS ω (.whileS c b e) s r ↔
+      if (evalCond ω c s).1 then ∃ rb, Res ω b (evalCond ω c s).2 rb ∧ loopK ω (.whileS c b e) rb r
+      else Res ω e (evalCond ω c s).2 r := by
   rw [← loopMatch_iff]
   constructor
   · rintro ⟨n, hn, hr⟩
@@ -337,22 +386,28 @@ theorem resS_while (ω : Oracle) (c : Cond) (b : List Stmt) (s : St) (r : Out ×
       simp only [exec] at hn
       split
       · rename_i hv; simp only [hv, if_true] at hn; exact ⟨n, hn, hr⟩
-      · rename_i hv; simp only [hv] at hn; simpa using hn.symm
+      · rename_i hv; simp only [hv] at hn; exact ⟨n, by simpa using hn, hr⟩
   · intro h
     split at h
     · rename_i hv
       obtain ⟨n, hn, hr⟩ := h
       exact ⟨n + 1, by simp only [exec, hv, if_true]; exact hn, hr⟩
     · rename_i hv
-      subst h
-      exact ⟨1, by simp only [exec]; simp [hv], by simp⟩
+      obtain ⟨n, hn, hr⟩ := h
+      exact ⟨n + 1, by simp only [exec]; simp [hv]; exact hn, hr⟩
 
-theorem resS_for_empty (ω : Oracle) (b : List Stmt) (s : St) (r : Out × St) :
-    ResS ω (.forS .empty b) s r ↔ r = (.normal, s) :=
-  resS_jump ω _ _ (by simp) (by intros; simp [exec]) s r
+theorem resS_for_empty (ω : Oracle) (b e : List Stmt) (s : St) (r : Out × St) :
+    ResS ω (.forS .empty b e) s r ↔ Res ω e s r := by
+  constructor
+  · rintro ⟨n, hn, hr⟩
+    cases n with
+    | zero => subst hn; simp [exec] at hr
+    | succ n => exact ⟨n, by simpa [exec] using hn, hr⟩
+  · rintro ⟨n, hn, hr⟩
+    exact ⟨n + 1, by simpa [exec] using hn, hr⟩
 
-theorem resS_for_nonempty (ω : Oracle) (b : List Stmt) (s : St) (r : Out × St) :
-    ResS ω (.forS .nonempty b) s r ↔ ∃ rb, Res ω b s rb ∧ loopK ω (.forS .unk b) rb r := by
+theorem resS_for_nonempty (ω : Oracle) (b e : List Stmt) (s : St) (r : Out × St) :
+    ResS ω (.forS .nonempty b e) s r ↔ ∃ rb, Res ω b s rb ∧ loopK ω (.forS .unk b e) rb r := by
   rw [← loopMatch_iff]
   constructor
   · rintro ⟨n, hn, hr⟩
@@ -362,10 +417,10 @@ theorem resS_for_nonempty (ω : Oracle) (b : List Stmt) (s : St) (r : Out × St)
   · rintro ⟨n, hn, hr⟩
     exact ⟨n + 1, by simp only [exec]; exact hn, hr⟩
 
-theorem resS_for_unk (ω : Oracle) (b : List Stmt) (s : St) (r : Out × St) :
-    ResS ω (.forS .unk b) s r ↔
-      if ω s.pos then ∃ rb, Res ω b ⟨s.pos + 1, s.trace⟩ rb ∧ loopK ω (.forS .unk b) rb r
-      else r = (.normal, ⟨s.pos + 1, s.trace⟩) := by
+theorem resS_for_unk (ω : Oracle) (b e : List Stmt) (s : St) (r : Out × St) :
+    ResS ω (.forS .unk b e) s r ↔
+      if ω s.pos then ∃ rb, Res ω b ⟨s.pos + 1, s.trace⟩ rb ∧ loopK ω (.forS .unk b e) rb r
+      else Res ω e ⟨s.pos + 1, s.trace⟩ r := by
   rw [← loopMatch_iff]
   constructor
   · rintro ⟨n, hn, hr⟩
@@ -375,14 +430,110 @@ theorem resS_for_unk (ω : Oracle) (b : List Stmt) (s : St) (r : Out × St) :
       simp only [exec] at hn
       split
       · rename_i hv; simp only [hv, if_true] at hn; exact ⟨n, hn, hr⟩
-      · rename_i hv; simp only [hv] at hn; simpa using hn.symm
+      · rename_i hv; simp only [hv] at hn; exact ⟨n, by simpa using hn, hr⟩
   · intro h
     split at h
     · rename_i hv
       obtain ⟨n, hn, hr⟩ := h
       exact ⟨n + 1, by simp only [exec, hv, if_true]; exact hn, hr⟩
     · rename_i hv
-      subst h
-      exact ⟨1, by simp only [exec]; simp [hv], by simp⟩
+      obtain ⟨n, hn, hr⟩ := h
+      exact ⟨n + 1, by simp only [exec]; simp [hv]; exact hn, hr⟩
+
+/-! `try` -/
+
+/-- the handler step, big-step -/
+def Handled (ω : Oracle) (hk : HKind) (hb : List Stmt) (r1 r2 : Out × St) : Prop :=
+  if r1.1 = .raise then
+    match hk with
+    | .none => r2 = r1
+    | .all => Res ω hb r1.2 r2
+    | .some =>
+      if ω r1.2.pos then Res ω hb ⟨r1.2.pos + 1, r1.2.trace⟩ r2
+      else r2 = (.raise, ⟨r1.2.pos + 1, r1.2.trace⟩)
+  else r2 = r1
+
+/-- the `finally` step, big-step -/
+def Finished (ω : Oracle) (f : List Stmt) (r2 r : Out × St) : Prop :=
+  ∃ r3, Res ω f r2.2 r3 ∧ r = (if r3.1 = .normal then (r2.1, r3.2) else r3)
+
+theorem handled_of (ω : Oracle) (n : Nat) (hk : HKind) (hb : List Stmt) (r1 : Out × St)
+    (hne : (handle ω r1 hk (execList ω n hb)).1 ≠ .fuel) :
+    Handled ω hk hb r1 (handle ω r1 hk (execList ω n hb)) := by
+  unfold Handled
+  unfold handle at hne ⊢
+  by_cases hra : r1.1 = .raise
+  · rw [if_pos hra] at hne ⊢; rw [if_pos hra]
+    cases hk with
+    | none => rfl
+    | all => exact ⟨n, rfl, hne⟩
+    | some =>
+      simp only at hne ⊢
+      by_cases hw : ω r1.2.pos = true
+      · rw [if_pos hw] at hne ⊢; rw [if_pos hw]; exact ⟨n, rfl, hne⟩
+      · rw [if_neg hw]; rw [if_neg hw]
+  · rw [if_neg hra]; rw [if_neg hra]
+
+theorem handle_of (ω : Oracle) (hk : HKind) (hb : List Stmt) (r1 r2 : Out × St) (h : Handled ω hk hb r1 r2)
+    (h1 : r1.1 ≠ .fuel) : ∃ n, ∀ m, n ≤ m → handle ω r1 hk (execList ω m hb) = r2 ∧ r2.1 ≠ .fuel := by
+  unfold Handled at h
+  unfold handle
+  by_cases hra : r1.1 = .raise
+  · rw [if_pos hra] at h
+    cases hk with
+    | none => subst h; exact ⟨0, fun m _ => ⟨by rw [if_pos hra], h1⟩⟩
+    | all =>
+      obtain ⟨n, hn, hr⟩ := h
+      exact ⟨n, fun m hm => ⟨by rw [if_pos hra]; exact execList_mono_le ω hm hn hr, hr⟩⟩
+    | some =>
+      simp only at h
+      by_cases hw : ω r1.2.pos = true
+      · rw [if_pos hw] at h
+        obtain ⟨n, hn, hr⟩ := h
+        exact ⟨n, fun m hm => ⟨by rw [if_pos hra]; simp only; rw [if_pos hw]; exact execList_mono_le ω hm hn hr, hr⟩⟩
+      · rw [if_neg hw] at h
+        subst h
+        exact ⟨0, fun m _ => ⟨by rw [if_pos hra]; simp only; rw [if_neg hw], by simp⟩⟩
+  · rw [if_neg hra] at h; subst h
+    exact ⟨0, fun m _ => ⟨by rw [if_neg hra], h1⟩⟩
+
+theorem resS_try (ω : Oracle) (b : List Stmt) (hk : HKind) (hb f : List Stmt) (s : St) (r : Out × St) :
+    ResS ω (.tryS b hk hb f) s r ↔ ∃ r1 r2, Res ω b s r1 ∧ Handled ω hk hb r1 r2 ∧ Finished ω f r2 r := by
+  constructor
+  · rintro ⟨n, hn, hr⟩
+    cases n with
+    | zero => subst hn; simp [exec] at hr
+    | succ n =>
+      simp only [exec, tryComb] at hn
+      have h2ne := finish_ne_fuel (by rw [hn]; exact hr)
+      have h1ne := handle_ne_fuel h2ne
+      refine ⟨execList ω n b s, handle ω (execList ω n b s) hk (execList ω n hb), ⟨n, rfl, h1ne⟩, handled_of ω n hk hb _ h2ne, ?_⟩
+      generalize handle ω (execList ω n b s) hk (execList ω n hb) = r2 at hn h2ne
+      unfold finish at hn
+      rw [if_neg h2ne] at hn
+      refine ⟨execList ω n f r2.2, ⟨n, rfl, ?_⟩, hn.symm⟩
+      by_cases hnn : (execList ω n f r2.2).1 = .normal
+      · rw [hnn]; simp
+      · rw [if_neg hnn] at hn; rw [hn]; exact hr
+  · rintro ⟨r1, r2, ⟨n1, hn1, hr1⟩, hh, ⟨r3, ⟨n3, hn3, hr3⟩, hfin⟩⟩
+    obtain ⟨n2, hn2⟩ := handle_of ω hk hb r1 r2 hh hr1
+    let m := max n1 (max n2 n3)
+    have hm1 : n1 ≤ m := Nat.le_max_left _ _
+    have hm2 : n2 ≤ m := Nat.le_trans (Nat.le_max_left _ _) (Nat.le_max_right _ _)
+    have hm3 : n3 ≤ m := Nat.le_trans (Nat.le_max_right _ _) (Nat.le_max_right _ _)
+    have e1 := execList_mono_le ω hm1 hn1 hr1
+    obtain ⟨e2, h2ne⟩ := hn2 m hm2
+    have e3 := execList_mono_le ω hm3 hn3 hr3
+    have hrne : r.1 ≠ .fuel := by
+      rw [hfin]
+      by_cases hnn : r3.1 = .normal
+      · rw [if_pos hnn]; exact h2ne
+      · rw [if_neg hnn]; exact hr3
+    refine ⟨m + 1, ?_, hrne⟩
+    simp only [exec, tryComb]
+    rw [e1, e2]
+    unfold finish
+    rw [if_neg h2ne, e3]
+    exact hfin.symm
 
 end C16
